@@ -9,8 +9,14 @@
     notion of whitespace — which is what `English::basic_annotate` violated before the fix of F-en-ascii-ws.
   * validation: `text2digits` sees its input through `split_whitespace` only (`C17_validate`,
     `C17_split_ws_subst`).
+  * separator tokens: a whitespace substitution inside a separator token (`", "` → `",\t "`) changes its
+    lowercase text, which the scanner hands to the language. For each built-in language a word that shares no
+    character with the language's vocabulary / splitter patterns (`L.Sepish`, T2N.Lemmas.Inert) is treated like
+    the empty word, so any two such tokens are related (`C17_separator_tokens_rel_<l>`).
 -/
 import T2N.Lemmas.Congr
+import T2N.Lemmas.Inert
+import T2N.Lemmas.SimpleCC
 import T2N.Model.Api
 
 namespace T2N.C17
@@ -90,5 +96,82 @@ theorem C17_split_ws_leading (cc : CharClasses) (u s : Word) (hu : u.all cc.isWh
     cc.splitWhitespace (u ++ s) = cc.splitWhitespace s := by
   unfold CharClasses.splitWhitespace
   exact go_ws_prefix cc u hu s
+
+/-! ### separator tokens are inert for every built-in language
+
+`L.Sepish w`: no character of `w` is a letter of language `L` (`L.letters`: the characters of the vocabulary
+keys, decimal vocabulary keys and splitter patterns; plus `-` for French — the French compound error path
+keeps the blocking flags, the plain one clears them, `Fr.dash_counterexample` — and `è` for Italian, the
+linking word "è"). -/
+
+/-- a token the language does not regard as a linking word breaks a sequence iff it is not pure
+punctuation / is a lone full stop — a property of its text and the character classes only -/
+theorem C17_breaks_of_not_linking (cfg : ScanCfg) (a : Tok) (h : cfg.lang.isLinking a.lower = false) :
+    breaks cfg a = !(a.text.all (fun c => !cfg.cc.isAlphabetic c) && cfg.cc.trim a.text != ['.']) := by
+  unfold breaks
+  rw [h, Bool.or_false]
+
+theorem C17_separator_tokens_rel_en (cfg : ScanCfg) (hl : cfg.lang = En.lang) (a b : Tok)
+    (ha : En.Sepish a.lower) (hb : En.Sepish b.lower) (hn : a.nan = b.nan)
+    (hs : Scanner.isSkipped cfg a = Scanner.isSkipped cfg b) (hbr : breaks cfg a = breaks cfg b) :
+    TokRel cfg a b :=
+  ⟨hs, hn, hl ▸ En.langEq_sepish _ _ ha hb, hbr⟩
+
+theorem C17_separator_tokens_rel_fr (cfg : ScanCfg) (hl : cfg.lang = Fr.lang) (a b : Tok)
+    (ha : Fr.Sepish a.lower) (hb : Fr.Sepish b.lower) (hn : a.nan = b.nan)
+    (hs : Scanner.isSkipped cfg a = Scanner.isSkipped cfg b) (hbr : breaks cfg a = breaks cfg b) :
+    TokRel cfg a b :=
+  ⟨hs, hn, hl ▸ Fr.langEq_sepish _ _ ha hb, hbr⟩
+
+theorem C17_separator_tokens_rel_es (cfg : ScanCfg) (hl : cfg.lang = Es.lang) (a b : Tok)
+    (ha : Es.Sepish a.lower) (hb : Es.Sepish b.lower) (hn : a.nan = b.nan)
+    (hs : Scanner.isSkipped cfg a = Scanner.isSkipped cfg b) (hbr : breaks cfg a = breaks cfg b) :
+    TokRel cfg a b :=
+  ⟨hs, hn, hl ▸ Es.langEq_sepish _ _ ha hb, hbr⟩
+
+theorem C17_separator_tokens_rel_pt (cfg : ScanCfg) (hl : cfg.lang = Pt.lang) (a b : Tok)
+    (ha : Pt.Sepish a.lower) (hb : Pt.Sepish b.lower) (hn : a.nan = b.nan)
+    (hs : Scanner.isSkipped cfg a = Scanner.isSkipped cfg b) (hbr : breaks cfg a = breaks cfg b) :
+    TokRel cfg a b :=
+  ⟨hs, hn, hl ▸ Pt.langEq_sepish _ _ ha hb, hbr⟩
+
+theorem C17_separator_tokens_rel_it (cfg : ScanCfg) (hl : cfg.lang = It.lang) (a b : Tok)
+    (ha : It.Sepish a.lower) (hb : It.Sepish b.lower) (hn : a.nan = b.nan)
+    (hs : Scanner.isSkipped cfg a = Scanner.isSkipped cfg b) (hbr : breaks cfg a = breaks cfg b) :
+    TokRel cfg a b :=
+  ⟨hs, hn, hl ▸ It.langEq_sepish _ _ ha hb, hbr⟩
+
+theorem C17_separator_tokens_rel_de (cfg : ScanCfg) (hl : cfg.lang = De.lang) (a b : Tok)
+    (ha : De.Sepish a.lower) (hb : De.Sepish b.lower) (hn : a.nan = b.nan)
+    (hs : Scanner.isSkipped cfg a = Scanner.isSkipped cfg b) (hbr : breaks cfg a = breaks cfg b) :
+    TokRel cfg a b :=
+  ⟨hs, hn, hl ▸ De.langEq_sepish _ _ ha hb, hbr⟩
+
+theorem C17_separator_tokens_rel_nl (cfg : ScanCfg) (hl : cfg.lang = Nl.lang) (a b : Tok)
+    (ha : Nl.Sepish a.lower) (hb : Nl.Sepish b.lower) (hn : a.nan = b.nan)
+    (hs : Scanner.isSkipped cfg a = Scanner.isSkipped cfg b) (hbr : breaks cfg a = breaks cfg b) :
+    TokRel cfg a b :=
+  ⟨hs, hn, hl ▸ Nl.langEq_sepish _ _ ha hb, hbr⟩
+
+/-- French separator tokens containing `-` (e.g. `" - "` → `" -\t"`): two tokens without letters that agree on
+whether they contain `-` are related -/
+theorem C17_separator_tokens_rel_fr_dash (cfg : ScanCfg) (hl : cfg.lang = Fr.lang) (a b : Tok)
+    (ha : Sepish Fr.letters0 a.lower) (hb : Sepish Fr.letters0 b.lower)
+    (hd : a.lower.contains '-' = b.lower.contains '-') (hn : a.nan = b.nan)
+    (hs : Scanner.isSkipped cfg a = Scanner.isSkipped cfg b) (hbr : breaks cfg a = breaks cfg b) :
+    TokRel cfg a b :=
+  ⟨hs, hn, hl ▸ Fr.langEq_sepish0 _ _ ha hb hd, hbr⟩
+
+/-- the hypotheses are satisfiable: `", "` and `",\t "` in French -/
+example : TokRel (scanCfg Fr.lang zeroThr) { text := w!", ", lower := w!", " }
+    { text := w!",\t ", lower := w!",\t " } :=
+  C17_separator_tokens_rel_fr _ rfl _ _ (by decide +kernel) (by decide +kernel) rfl (by decide +kernel)
+    (by decide +kernel)
+
+/-- … and `" - "`, `" -\t"` for the `-` variant -/
+example : TokRel (scanCfg Fr.lang zeroThr) { text := w!" - ", lower := w!" - " }
+    { text := w!" -\t", lower := w!" -\t" } :=
+  C17_separator_tokens_rel_fr_dash _ rfl _ _ (by decide +kernel) (by decide +kernel) (by decide +kernel) rfl
+    (by decide +kernel) (by decide +kernel)
 
 end T2N.C17
